@@ -254,11 +254,11 @@ fn redo(args: &[String]) -> i32 {
         }
         "soup" => {
             let text = cp_text(&rp["rec"]["cp"]);
-            soup_record(&text, &evaluate(&text, &tree::soup_env()))
+            soup_record("soup", &text, &evaluate(&text, &tree::soup_env()))
         }
         "shellsoup" => {
             let text = cp_text(&rp["rec"]["cp"]);
-            soup_record(&text, &shell_eval(&shellsoup_script(&text), &[]))
+            soup_record("shellsoup", &text, &shell_eval(&shellsoup_script(&text), &[]))
         }
         other => {
             eprintln!("unknown direction {other}");
@@ -290,7 +290,7 @@ fn random(args: &[String]) -> i32 {
         let obs = evaluate(&text, &env0);
         names = names_of(&env0, &obs, &names);
         let rec = json!({
-            "k": "tree", "tree": tree::to_json(&t), "sp": sp, "text": text,
+            "k": "tree", "dir": "random", "tree": tree::to_json(&t), "sp": sp, "text": text,
             "env": env_tla(&env0, &names), "out": obs_tla(&obs, &names),
         });
         writeln!(out, "{rec}").unwrap();
@@ -303,9 +303,9 @@ fn random(args: &[String]) -> i32 {
 // soup (totality)
 // ---------------------------------------------------------------------------
 
-fn soup_record(text: &str, obs: &Obs) -> Value {
+fn soup_record(dir: &str, text: &str, obs: &Obs) -> Value {
     let cps: Vec<u32> = text.chars().map(|c| c as u32).collect();
-    json!({"k": "soup", "cp": cps, "out": {"t": obs.t, "c": obs.c, "lok": obs.loc_ok}})
+    json!({"k": "soup", "dir": dir, "cp": cps, "out": {"t": obs.t, "c": obs.c, "lok": obs.loc_ok}})
 }
 
 fn soup(args: &[String]) -> i32 {
@@ -317,7 +317,7 @@ fn soup(args: &[String]) -> i32 {
     for i in 0..n {
         let text = tree::random_soup(&mut rng, i);
         let obs = evaluate(&text, &env0);
-        writeln!(out, "{}", soup_record(&text, &obs)).unwrap();
+        writeln!(out, "{}", soup_record("soup", &text, &obs)).unwrap();
     }
     out.flush().unwrap();
     0
@@ -440,7 +440,7 @@ fn shellsoup(args: &[String]) -> i32 {
         let mut text = tree::random_soup(&mut rng, i);
         text.retain(|c| c != '\0');
         let obs = shell_eval(&shellsoup_script(&text), &[]);
-        writeln!(out, "{}", soup_record(&text, &obs)).unwrap();
+        writeln!(out, "{}", soup_record("shellsoup", &text, &obs)).unwrap();
     }
     out.flush().unwrap();
     0
